@@ -178,7 +178,7 @@ class Spec:
         S["z"] = [ocp.algebraic(n, scale=self._scale("z", i, n)) for i, n in enumerate(self.algebraics)]
         for kind in ("", "control", "control+"):
             g, il = kind.rstrip("+"), kind.endswith("+")
-            S[("p", kind)] = [ocp.parameter(n, grid=g, include_last=il) for n in self.params.get(kind, [])]
+            S[("p", kind)] = [ocp.parameter(*(n if isinstance(n, tuple) else (n,)), grid=g, include_last=il) for n in self.params.get(kind, [])]
             S[("v", kind)] = [ocp.variable(n, grid=g, include_last=il, scale=self._scale("v" + kind, i, n))
                               for i, n in enumerate(self.variables.get(kind, []))]
         for key, spec in (("T", self.T), ("t0", self.t0)):
@@ -204,7 +204,7 @@ class Spec:
         for kind in ("", "control", "control+"):
             for i, p in enumerate(S[("p", kind)]):
                 cols = {"": 1, "control": self.N, "control+": self.N + 1}[kind]
-                val = unknown("pval_%s%d" % (kind.replace("+", "plus"), i), p.numel(), cols)
+                val = unknown("pval_%s%d" % (kind.replace("+", "plus"), i), p.shape[0], p.shape[1] * cols)
                 self.pvals[(kind, i)] = val
                 ocp.set_value(p, val)
         for key in ("T", "t0"):
